@@ -37,11 +37,20 @@ fn sample_of(t: &str) -> (&'static str, Cell) {
         "nil" => ("nil", Cell::Nil),
         "flag" => ("true", Cell::Flag(true)),
         "vec" => ("[ 1 ]", Cell::Vector(Xvec::new().push_back(Cell::Int(1)))),
+        "zint" => ("0", Cell::Int(0)),
+        "zreal" => ("0.0", Cell::Real(0.0)),
+        "tzint" => ("0 \"t\" \"k\" insert-tag", Cell::Int(0)),
         _ => ("7 \"t\" \"k\" insert-tag", Cell::Int(7)),
     }
 }
 
 pub fn judge(c: &Value) -> Option<Value> {
+    judge_as(c, false)
+}
+
+/// `tagged`: the last operand carries a tag map - the expected outcome is the same (tags never change what a number does)
+pub fn judge_as(c: &Value, tagged: bool) -> Option<Value> {
+    let tg = if tagged { " { 1 \"k\" } with-tags" } else { "" };
     let kind = c["kind"].as_str().unwrap_or("");
     let op = c["op"].as_str().unwrap_or("");
     let exp = &c["exp"];
@@ -50,10 +59,10 @@ pub fn judge(c: &Value) -> Option<Value> {
     }
     let mut operands: Vec<Cell> = vec![];
     let src = match kind {
-        "bin" | "shift" => { let a = to_i128(&jbits(&c["a"])); let b = to_i128(&jbits(&c["b"])); operands = vec![Cell::Int(a), Cell::Int(b)]; format!("{} {} {}", a, b, op) }
-        "un" => { let a = to_i128(&jbits(&c["a"])); operands = vec![Cell::Int(a)]; format!("{} {}", a, op) }
-        "rbin" => format!("{} {} {}", real_lit(real_of(&c["a"])), real_lit(real_of(&c["b"])), op),
-        "run" => format!("{} {}", real_lit(real_of(&c["a"])), op),
+        "bin" | "shift" => { let a = to_i128(&jbits(&c["a"])); let b = to_i128(&jbits(&c["b"])); operands = vec![Cell::Int(a), Cell::Int(b)]; format!("{} {}{} {}", a, b, tg, op) }
+        "un" => { let a = to_i128(&jbits(&c["a"])); operands = vec![Cell::Int(a)]; format!("{}{} {}", a, tg, op) }
+        "rbin" => format!("{} {}{} {}", real_lit(real_of(&c["a"])), real_lit(real_of(&c["b"])), tg, op),
+        "run" => format!("{}{} {}", real_lit(real_of(&c["a"])), tg, op),
         "tbin" => { let (sa, ca) = sample_of(c["a"].as_str().unwrap()); let (sb, cb) = sample_of(c["b"].as_str().unwrap()); operands = vec![ca, cb]; format!("{} {} {}", sa, sb, op) }
         "tun" => { let (sa, ca) = sample_of(c["a"].as_str().unwrap()); operands = vec![ca]; format!("{} {}", sa, op) }
         _ => return None,
@@ -123,6 +132,12 @@ pub fn judge(c: &Value) -> Option<Value> {
                             }
                             other => why.push(format!("result {:?} / {:?}, expected a type error", other.as_ref().err().map(|e| err_class(e)), top)),
                         }
+                    } else if exp["cls"] == "DivZero" {
+                        match &r {
+                            Err(e) if err_class(e) == "DivZero" => {}
+                            other => why.push(format!("result {:?} / {:?}, expected a division error", other.as_ref().err().map(|e| err_class(e)), top)),
+                        }
+                    } else if exp["cls"] == "skip" {
                     } else if let Err(e) = &r {
                         // well-typed: may only fail for value reasons (none with these samples)
                         why.push(format!("well-typed operands failed: {} ({})", err_class(e), e));
@@ -149,6 +164,16 @@ pub fn cmd_replay(args: &[String]) -> i32 {
             if bad <= 300 {
                 out.push_str(&m.to_string());
                 out.push('\n');
+            }
+        }
+        // every third case once more with a tagged operand
+        if n % 3 == 0 && matches!(c["kind"].as_str(), Some("bin") | Some("un") | Some("shift") | Some("rbin") | Some("run")) {
+            if let Some(m) = judge_as(&c, true) {
+                bad += 1;
+                if bad <= 300 {
+                    out.push_str(&m.to_string());
+                    out.push('\n');
+                }
             }
         }
     });
